@@ -185,7 +185,7 @@ func genDag(r *RNG, depth, nTop int, big bool) *gdag {
 		}
 		// the same bytes under another codec: a raw view of a block of this level (same
 		// multihash, different CID) becomes a leaf candidate for the levels above
-		if r.Chance(30) {
+		if r.Chance(12) {
 			src := pick(r, levels[lvl])
 			tw := &dnode{c: cid.NewCidV1(cid.Raw, src.c.Hash()), data: src.data}
 			levels[0] = append(levels[0], tw)
@@ -312,9 +312,60 @@ func fixedCases(c *Ctx) {
 	_ = r
 }
 
+// smallScope: every DAG on four nodes n0 > n1 > n2 > n3 where each node links each later node
+// 0, 1 or 2 times (3^6 shapes), through every entry point, link-visit-once on and off.
+func smallScope(c *Ctx) {
+	leafData := []byte("n3")
+	for code := 0; code < 729; code++ {
+		m := [4][4]int{}
+		x := code
+		for i := 0; i < 4; i++ {
+			for j := i + 1; j < 4; j++ {
+				m[i][j] = x % 3
+				x /= 3
+			}
+		}
+		nodes := make([]*dnode, 4)
+		nodes[3] = &dnode{c: mkCid(1, cid.Raw, mh.SHA2_256, -1, leafData), data: leafData}
+		for i := 2; i >= 0; i-- {
+			var kids []*dnode
+			for j := i + 1; j < 4; j++ {
+				for k := 0; k < m[i][j]; k++ {
+					kids = append(kids, nodes[j])
+				}
+			}
+			n, err := qp.BuildMap(basicnode.Prototype.Any, -1, func(ma datamodel.MapAssembler) {
+				qp.MapEntry(ma, "id", qp.Int(int64(i)))
+				for k, kid := range kids {
+					qp.MapEntry(ma, "l"+string(rune('0'+k)), qp.Link(cidlink.Link{Cid: kid.c}))
+				}
+			})
+			if err != nil {
+				panic(err)
+			}
+			d := encCbor(n)
+			nodes[i] = &dnode{c: mkCid(1, cid.DagCBOR, mh.SHA2_256, -1, d), data: d}
+		}
+		var store []Blk
+		for _, n := range nodes {
+			store = append(store, Blk{n.c, n.data})
+		}
+		for api := uint64(0); api <= 4; api++ {
+			for _, dups := range []bool{true, false} {
+				tc := &travCase{api: api, roots: []cid.Cid{nodes[0].c}, sel: selSpec{kind: 0}, opts: travOpts{dups: dups}, store: store}
+				emitTrav(c, tc, func(traces Val) bool { d, _, ok := traceStats(traces); return ok && d >= 3 })
+				c.Count("small-scope:4-node-dag")
+			}
+		}
+	}
+}
+
 func init() {
 	register("c15", func(c *Ctx) {
 		fixedCases(c)
+		if c.Thorough {
+			smallScope(c)
+		}
 		nDag := 30 * c.Scale
 		apiNames := []string{"TraverseV1", "SelectiveWriter", "TraverseToFile", "SelectiveCar", "WriteCar"}
 		for a := 0; a < nDag; a++ {
@@ -368,6 +419,24 @@ func init() {
 						}
 						tc.store = st2
 						c.Count("store:block-missing")
+					}
+					if r.Chance(8) && len(g.nodes) > 1 { // malformed stream: a block whose bytes are not what its CID names
+						victim := pick(r, g.nodes)
+						st2 := append([]Blk(nil), tc.store...)
+						for i := range st2 {
+							if st2[i].Cid.Equals(victim.c) {
+								switch r.Intn(3) {
+								case 0:
+									st2[i].Data = r.Bytes(1 + r.Intn(40))
+								case 1:
+									st2[i].Data = st2[i].Data[:len(st2[i].Data)/2]
+								default:
+									st2[i].Data = append(append([]byte(nil), st2[i].Data...), 0)
+								}
+							}
+						}
+						tc.store = st2
+						c.Count("store:block-corrupt")
 					}
 					emitTrav(c, tc, func(traces Val) bool {
 						d, rp, ok := traceStats(traces)
